@@ -16,7 +16,8 @@ from aioslsk.search.model import SearchQuery        # noqa: E402
 req = json.load(open(sys.argv[1])) if len(sys.argv) > 1 else {}
 SEED = int(req.get('seed', 7))
 ROUNDS = int(req.get('rounds', 14))
-WORDS = ['song', 'long', 'one', 'two', 'Song', 'LONG', 'a', 'ab', 'b', 'live', 'été', '音楽', 'x1', '1', 'mp3', 'flac', 'gong', 'on']
+WORDS = ['song', 'long', 'one', 'two', 'Song', 'LONG', 'a', 'ab', 'b', 'live', 'été', '音楽', 'x1', '1', 'mp3', 'flac', 'gong', 'on',
+         'straße', 'strasse', 'ﬁn', 'fin', 'İstanbul']
 SEPS = [' ', '_', '-', '.', ' (', ') ', '[', ']', "'", ' & ', '__']
 
 
